@@ -12,6 +12,13 @@
 // to that request alone (APQ hash-only lookups: to the request with the
 // registered text).  The same histories are then fired by 8 concurrent
 // clients at one server inside a copy of this driver built with -race.
+//
+// The header instance (MC_HttpStateHdr) makes the transports' configured
+// ResponseHeaders part of the server state and gives requests an Accept
+// dimension: its edge cover (source state = configuration x media type
+// negotiated last) is replayed on servers constructed with each configuration.
+// gen.go serves CONCURRENT requests against GENERATED code in the orders of
+// their Execute / Write steps that MC_HttpStateHeld exports.
 package main
 
 import (
@@ -36,6 +43,12 @@ type step struct {
 	Act Act `json:"act"`
 }
 
+// hist is one history: the configuration its server is constructed with and the requests.
+type hist struct {
+	Cfg   string `json:"cfg"`
+	Steps []step `json:"steps"`
+}
+
 type finding struct {
 	Key    string `json:"key"`
 	Detail string `json:"detail"`
@@ -51,6 +64,13 @@ type stats struct {
 	PerTr      map[string]int64 `json:"per_transport"`
 	PerOut     map[string]int64 `json:"per_outcome"`
 	OracleRuns int              `json:"fresh_server_oracle_runs"`
+	PerCfg     map[string]int64 `json:"per_server_config"`
+	// fresh-server answers whose status / Content-Type are not what the model's
+	// negotiation function prescribes (not a C07 verdict: both sides of the
+	// isolation comparison come from the code; reported in the evidence)
+	PredChecked  int64  `json:"model_predictions_checked"`
+	PredMismatch int64  `json:"model_predictions_not_met_by_fresh_server"`
+	PredSample   string `json:"model_prediction_mismatch_sample,omitempty"`
 }
 
 // runner replays histories against live servers and judges every answer.
@@ -67,7 +87,7 @@ type runner struct {
 }
 
 func newRunner() *runner {
-	return &runner{or: &oracle{memo: map[string]Resp{}, dirty: true}, ptrs: map[string]bool{}, st: stats{PerTr: map[string]int64{}, PerOut: map[string]int64{}}}
+	return &runner{or: &oracle{memo: map[string]Resp{}, dirty: true}, ptrs: map[string]bool{}, st: stats{PerTr: map[string]int64{}, PerOut: map[string]int64{}, PerCfg: map[string]int64{}}}
 }
 
 func (rn *runner) report(key, detail string, scen any) {
@@ -93,9 +113,9 @@ func normNull(s string) string {
 }
 
 // judge one request of a history.  prev = the earlier requests (for the report).
-func (rn *runner) judge(a Act, cr Concrete, resp Resp, seen []Seen, prev []AReq, where string) {
+func (rn *runner) judge(cfg string, a Act, cr Concrete, resp Resp, seen []Seen, prev []AReq, where string) {
 	r := a.R
-	scen := map[string]any{"where": where, "history_before": prev, "request": r, "concrete": cr, "answer": resp, "seen": seen, "specification": a}
+	scen := map[string]any{"where": where, "server_config": cfg, "history_before": prev, "request": r, "concrete": cr, "answer": resp, "seen": seen, "specification": a}
 	// (i) the parameters handed to CreateOperationContext are the request's own
 	wantEntries := 1
 	if a.Out == "decodeErr" {
@@ -136,7 +156,7 @@ func (rn *runner) judge(a Act, cr Concrete, resp Resp, seen []Seen, prev []AReq,
 	var allowed []Resp
 	var names []string
 	add := func(q AReq, name string) bool {
-		o, err := rn.or.alone(concretise(q, xreqOf(r)))
+		o, err := rn.or.alone(concretiseOn(cfg, q, xreqOf(r)))
 		if d, ok := err.(*disagree); ok {
 			rn.deferred = append(rn.deferred, finding{"fresh-servers-disagree{tr=" + q.Tr + "}", "request " + q.label() + ": " + d.Error(), map[string]any{"request": q, "answers": []Resp{d.a, d.b}}})
 		} else if err != nil {
@@ -166,6 +186,29 @@ func (rn *runner) judge(a Act, cr Concrete, resp Resp, seen []Seen, prev []AReq,
 	rn.st.Requests++
 	rn.st.PerTr[r.Tr]++
 	rn.st.PerOut[a.Out]++
+	if cfg == "" {
+		rn.st.PerCfg["none"]++
+	} else {
+		rn.st.PerCfg[cfg]++
+	}
+	// does the fresh server do what the model's negotiation function says?
+	if !rn.conc && a.ApqHit == "" && len(allowed) == 1 && a.Ct != "" && !r.isWS() {
+		rn.st.PredChecked++
+		o := allowed[0]
+		bad := ""
+		if got := strings.Join(o.Header["Content-Type"], ","); got != ctName(a.Ct) {
+			bad = fmt.Sprintf("Content-Type %q, model %q", got, ctName(a.Ct))
+		}
+		if (a.St == "200" || a.St == "400" || a.St == "422") && fmt.Sprint(o.Status) != a.St {
+			bad += fmt.Sprintf(" status %d, model %s", o.Status, a.St)
+		}
+		if bad != "" {
+			rn.st.PredMismatch++
+			if rn.st.PredSample == "" {
+				rn.st.PredSample = fmt.Sprintf("config %q request %s alone: %s", cfg, r.label(), bad)
+			}
+		}
+	}
 	dfd := rn.deferred
 	rn.deferred = nil
 	rn.mu.Unlock()
@@ -180,8 +223,16 @@ func (rn *runner) judge(a Act, cr Concrete, resp Resp, seen []Seen, prev []AReq,
 	}
 	if !ok {
 		scen["fresh_server_answers"] = allowed
-		rn.report(fmt.Sprintf("isolation{tr=%s,out=%s}", r.Tr, a.Out),
-			fmt.Sprintf("request %s after %v is answered\n  %s\na fresh server answers (%s)\n  %s", r.label(), labels(prev), resp.key(), strings.Join(names, " | "), allowed[0].key()), scen)
+		key := fmt.Sprintf("isolation{tr=%s,out=%s}", r.Tr, a.Out)
+		if len(allowed) > 0 && allowed[0].Body == resp.Body && len(allowed[0].Frames) == 0 {
+			key = fmt.Sprintf("isolation-headers{tr=%s,out=%s}", r.Tr, a.Out) // only status / headers differ
+		}
+		cfgNote := ""
+		if cfg != "" {
+			cfgNote = fmt.Sprintf(" (server constructed with ResponseHeaders %s)", canon(cfgHeaders(cfg)))
+		}
+		rn.report(key,
+			fmt.Sprintf("request %s after %v%s is answered\n  %s\na fresh server answers (%s)\n  %s", r.label(), labels(prev), cfgNote, resp.key(), strings.Join(names, " | "), allowed[0].key()), scen)
 	}
 }
 
@@ -212,6 +263,8 @@ func (rn *runner) fail(format string, a ...any) {
 	rn.check.Finish()
 }
 
+func (r AReq) isWS() bool { return r.Tr == "WS" }
+
 func labels(rs []AReq) []string {
 	out := make([]string, len(rs))
 	for i, r := range rs {
@@ -221,10 +274,11 @@ func labels(rs []AReq) []string {
 }
 
 // replay runs one history on one freshly started server (= the model's Init).
-func (rn *runner) replay(h []step, where string, ls *liveServer) {
+func (rn *runner) replay(hi hist, where string, ls *liveServer) {
+	h := hi.Steps
 	own := ls == nil
 	if own {
-		ls = startServer()
+		ls = startServerCfg(hi.Cfg)
 		defer ls.close()
 	}
 	c := newClient(ls)
@@ -235,13 +289,23 @@ func (rn *runner) replay(h []step, where string, ls *liveServer) {
 		rn.nextID++
 		id := fmt.Sprintf("r%d", rn.nextID)
 		rn.mu.Unlock()
-		cr := concretise(s.Act.R, xreqOf(s.Act.R))
+		cr := concretiseOn(hi.Cfg, s.Act.R, xreqOf(s.Act.R))
 		resp, seen, err := c.do(cr, id)
 		if err != nil {
 			rn.fail("%s: request %s after %v: %v", where, s.Act.R.label(), labels(prev), err)
 		}
-		rn.judge(s.Act, cr, resp, seen, prev, where)
+		rn.judge(ls.cfg, s.Act, cr, resp, seen, prev, where)
 		prev = append(prev, s.Act.R)
+	}
+	if own {
+		// the configuration the transports were constructed with is the harness' own
+		// object: no request may have written it (ConfigImmutable)
+		if w := ls.configWritten(); len(w) > 0 {
+			rn.report(fmt.Sprintf("config-written{cfg=%s}", ls.cfg),
+				fmt.Sprintf("after the history %v the ResponseHeaders map the transport was constructed with holds %v; it was constructed with %s",
+					labels(prev), w, canon(cfgHeaders(ls.cfg))),
+				map[string]any{"where": where, "server_config": ls.cfg, "history": prev, "written": w})
+		}
 	}
 	rn.mu.Lock()
 	rn.st.Histories++
@@ -267,7 +331,21 @@ func main() {
 		return
 	}
 
-	// ---- TLC: sequential model with edge export; two requests in flight; negative configurations
+	// ---- generated probe servers (for gen.go) are built while TLC runs
+	probeVs := genVariants(thorough)
+	type built struct {
+		bins map[string]string
+		err  error
+	}
+	probesCh := make(chan built, 1)
+	go func() {
+		bins, err := vlib.BuildProbes("exec", probeVs)
+		probesCh <- built{bins, err}
+	}()
+
+	// ---- TLC.  Lane A (one worker): sequential model with edge export, header instance with edge export,
+	// three requests in flight with schedule export, the two new negative configurations.  Lane B (three
+	// workers): two requests in flight.  Thorough: the other negative configurations afterwards.
 	seqCfg := "MC_HttpState.cfg"
 	if thorough {
 		seqCfg = "MC_HttpStateFull.cfg"
@@ -277,39 +355,56 @@ func main() {
 		res  *vlib.TLCResult
 	}
 	var wg sync.WaitGroup
-	results := make(chan tl, 16)
-	run := func(name, cfg string, workers int, cov bool) {
-		wg.Add(1)
-		go func() {
-			defer wg.Done()
-			res, err := vlib.RunTLC(vlib.TLCOpts{Module: "MC_HttpState", Config: cfg, Workers: workers, Timeout: 15 * time.Minute,
-				Coverage: cov, Scratch: vlib.Work("C07", "tlc-"+name), HeapGB: 5})
-			if err != nil {
-				vlib.Infra("TLC %s: %v", name, err)
-			}
-			results <- tl{name, res}
-		}()
+	results := make(chan tl, 32)
+	runTLC := func(name, cfg string, workers int, cov bool) {
+		res, err := vlib.RunTLC(vlib.TLCOpts{Module: "MC_HttpState", Config: cfg, Workers: workers, Timeout: 15 * time.Minute,
+			Coverage: cov, Scratch: vlib.Work("C07", "tlc-"+name), HeapGB: 5})
+		if err != nil {
+			vlib.Infra("TLC %s: %v", name, err)
+		}
+		results <- tl{name, res}
 	}
-	run("seq", seqCfg, 1, true)
-	run("conc", "MC_HttpStateConc.cfg", 3, false)
-	negs := []string{}
-	if thorough {
-		negs = []string{"q", "opn", "vars", "ext", "hdr", "rt", "early", "key"}
-	}
+	wg.Add(2)
+	go func() {
+		defer wg.Done()
+		runTLC("seq", seqCfg, 1, true)
+		runTLC("hdr", "MC_HttpStateHdr.cfg", 1, false)
+		runTLC("held", "MC_HttpStateHeld.cfg", 1, false)
+		runTLC("neg_merge", "MC_HttpState_neg_merge.cfg", 1, false)
+		runTLC("neg_bufpool", "MC_HttpState_neg_bufpool.cfg", 1, false)
+		if thorough {
+			runTLC("neg_bufpool_seq", "MC_HttpState_neg_bufpool_seq.cfg", 1, false)
+		}
+	}()
+	go func() {
+		defer wg.Done()
+		runTLC("conc", "MC_HttpStateConc.cfg", 3, false)
+	}()
 	wg.Wait()
-	for _, n := range negs { // small; after the big ones to stay within the process budget
-		run("neg_"+n, "MC_HttpState_neg_"+n+".cfg", 1, false)
+	if thorough { // small; after the big ones to stay within the process budget
+		for _, n := range []string{"q", "opn", "vars", "ext", "hdr", "rt", "early", "key"} {
+			wg.Add(1)
+			go func(n string) {
+				defer wg.Done()
+				runTLC("neg_"+n, "MC_HttpState_neg_"+n+".cfg", 1, false)
+			}(n)
+		}
+		wg.Wait()
 	}
-	wg.Wait()
 	close(results)
-	var seq *vlib.TLCResult
+	var seq, hdr, held *vlib.TLCResult
 	modelMutants := map[string]string{}
 	for r := range results {
-		switch {
-		case r.name == "seq":
-			seq = r.res
-			fallthrough
-		case r.name == "conc":
+		switch r.name {
+		case "seq", "hdr", "held", "conc":
+			switch r.name {
+			case "seq":
+				seq = r.res
+			case "hdr":
+				hdr = r.res
+			case "held":
+				held = r.res
+			}
 			if !r.res.OK {
 				vlib.Infra("TLC on the model alone failed (%s): specification error, not a verdict about the code:\n%s", r.name, r.res.Violation)
 			}
@@ -326,24 +421,38 @@ func main() {
 				}
 			}
 			modelMutants[f] = viol
-			wantViol := f != "hdr" && f != "rt" // Headers and ReadTime are assigned before every use
+			// Headers and ReadTime are assigned before every use; a pooled response buffer is invisible sequentially
+			wantViol := f != "hdr" && f != "rt" && f != "bufpool_seq"
 			if (viol != "none") != wantViol || viol == "unknown" {
 				vlib.Infra("negative configuration %s: expected violation=%v, TLC says %q\n%s", r.name, wantViol, viol, r.res.Violation)
 			}
 		}
 	}
-	for _, a := range []string{"Start", "Take", "Decode", "Mutate", "Parse", "AddCache", "Respond", "Finish"} {
+	for _, a := range []string{"Start", "Take", "Decode", "Mutate", "Parse", "AddCache", "Execute", "Write", "Finish"} {
 		if seq.ActionCount[a] == 0 {
 			vlib.Infra("vacuous: action %s of HttpState never taken", a)
 		}
 	}
-	fmt.Fprintf(os.Stderr, "TLC done after %.1fs (seq %.1fs, %d distinct states)\n", time.Since(tStart).Seconds(), seq.WallS, seq.Distinct)
+	fmt.Fprintf(os.Stderr, "TLC done after %.1fs (seq %.1fs, %d distinct states; header instance %d; three in flight %d)\n",
+		time.Since(tStart).Seconds(), seq.WallS, seq.Distinct, hdr.Distinct, held.Distinct)
 	edges, err := vlib.ParseEdges(seq.Printed)
 	if err != nil {
 		vlib.Infra("edges: %v", err)
 	}
-	seq.Printed, seq.Output = nil, ""
-	init := `{"apq":[],"pool":[],"qc":[]}`
+	hdrEdges, err := vlib.ParseEdges(hdr.Printed)
+	if err != nil {
+		vlib.Infra("edges of the header instance: %v", err)
+	}
+	schedEdges, err := vlib.ParseEdges(held.Printed)
+	if err != nil {
+		vlib.Infra("schedule edges: %v", err)
+	}
+	scheds := schedules(schedEdges)
+	seq.Printed, seq.Output, hdr.Printed, hdr.Output, held.Printed, held.Output = nil, "", nil, "", nil, ""
+	initOf := func(cfg string) string {
+		return `{"apq":[],"cfg":"` + cfg + `","neg":{"ct":"","tr":""},"pool":[],"qc":[]}`
+	}
+	init := initOf("none")
 	paths := vlib.CoverPaths(edges, init, 4)
 	if len(paths) == 0 {
 		vlib.Infra("no path from the initial state %s", init)
@@ -357,20 +466,36 @@ func main() {
 		}
 		return h
 	}
-	var histories [][]step
+	var histories []hist
 	covered := map[string]bool{}
 	for _, p := range paths {
-		histories = append(histories, toSteps(p))
+		histories = append(histories, hist{Cfg: "", Steps: toSteps(p)})
 		for _, e := range p {
 			covered[e.S+"|"+string(e.A)] = true
 		}
 	}
+	nSeqHist := len(histories)
+	// the header instance: one family of covering paths per server configuration (initial state)
+	hdrCovered := map[string]bool{}
+	for _, cfg := range []string{"none", "xsb", "ct"} {
+		ps := vlib.CoverPaths(hdrEdges, initOf(cfg), 4)
+		if len(ps) == 0 {
+			vlib.Infra("header instance: no path from the initial state %s", initOf(cfg))
+		}
+		for _, p := range ps {
+			histories = append(histories, hist{Cfg: cfg, Steps: toSteps(p)})
+			for _, e := range p {
+				hdrCovered[e.S+"|"+string(e.A)] = true
+			}
+		}
+	}
+	nHdrHist := len(histories) - nSeqHist
 
 	// ---- fresh-server oracle for every request of every history (all Ps: it collects garbage twice per run)
 	rn := newRunner()
 	rn.check = c
-	prefill := func(h []step) {
-		for _, s := range h {
+	prefill := func(h hist) {
+		for _, s := range h.Steps {
 			r := s.Act.R
 			qs := []AReq{r}
 			if s.Act.ApqHit != "" {
@@ -379,7 +504,7 @@ func main() {
 				qs = append(qs, q)
 			}
 			for _, q := range qs {
-				if _, err := rn.or.alone(concretise(q, xreqOf(r))); err != nil {
+				if _, err := rn.or.alone(concretiseOn(h.Cfg, q, xreqOf(r))); err != nil {
 					if d, ok := err.(*disagree); ok {
 						rn.report("fresh-servers-disagree{tr="+q.Tr+"}", "request "+q.label()+": "+d.Error(), map[string]any{"request": q, "answers": []Resp{d.a, d.b}})
 					} else {
@@ -401,24 +526,30 @@ func main() {
 	for i, h := range histories {
 		rn.replay(h, fmt.Sprintf("history %d", i), nil)
 	}
-	// random walks over the state graph on ONE server each (long histories)
-	outEdges := map[string][]int{}
-	for i, e := range edges {
-		outEdges[e.S] = append(outEdges[e.S], i)
+	// random walks over the state graphs on ONE server each (long histories)
+	walk := func(es []vlib.Edge, from, cfg string, n int, where string) {
+		outEdges := map[string][]int{}
+		for i, e := range es {
+			outEdges[e.S] = append(outEdges[e.S], i)
+		}
+		cur := from
+		var p []vlib.Edge
+		for len(p) < n && len(outEdges[cur]) > 0 {
+			e := es[outEdges[cur][rng.Intn(len(outEdges[cur]))]]
+			p = append(p, e)
+			cur = e.T
+		}
+		rn.replay(hist{Cfg: cfg, Steps: toSteps(p)}, where, nil)
 	}
 	nWalks, walkLen := 2, 1500
 	if thorough {
 		nWalks, walkLen = 8, 4000
 	}
 	for w := 0; w < nWalks; w++ {
-		cur := init
-		var p []vlib.Edge
-		for len(p) < walkLen && len(outEdges[cur]) > 0 {
-			e := edges[outEdges[cur][rng.Intn(len(outEdges[cur]))]]
-			p = append(p, e)
-			cur = e.T
-		}
-		rn.replay(toSteps(p), fmt.Sprintf("random walk %d", w), nil)
+		walk(edges, init, "", walkLen, fmt.Sprintf("random walk %d", w))
+	}
+	for _, cfg := range []string{"xsb", "none", "ct"} {
+		walk(hdrEdges, initOf(cfg), cfg, walkLen/3, "random walk of the header instance on configuration "+cfg)
 	}
 	seqWall := time.Since(t0).Seconds()
 	fmt.Fprintf(os.Stderr, "sequential replay done after %.1fs (%d requests, %d oracle runs)\n", time.Since(tStart).Seconds(), rn.st.Requests, rn.or.n)
@@ -432,9 +563,13 @@ func main() {
 	if seqStats.Reuse == 0 {
 		vlib.Infra("vacuous: %d POST requests reached the parameter mutator and no *RawParams address was seen twice - sync.Pool reuse did not happen", seqStats.PostSeen)
 	}
+	if seqStats.PredMismatch > 0 {
+		fmt.Fprintf(os.Stderr, "note: %d of %d fresh-server answers do not have the status / Content-Type the model's negotiation function prescribes (e.g. %s)\n",
+			seqStats.PredMismatch, seqStats.PredChecked, seqStats.PredSample)
+	}
 
-	// ---- concurrent variant in a -race build of this driver
-	concHist := histories
+	// ---- concurrent variant in a -race build of this driver || concurrent requests against generated code
+	concHist := append([]hist{}, histories[:nSeqHist]...)
 	maxConc := 1200
 	if thorough {
 		maxConc = 8000
@@ -443,50 +578,91 @@ func main() {
 		rng.Shuffle(len(concHist), func(i, j int) { concHist[i], concHist[j] = concHist[j], concHist[i] })
 		concHist = concHist[:maxConc]
 	}
+	concHist = append(concHist, histories[nSeqHist:]...) // the header instance completely
+	pb := <-probesCh
+	if pb.err != nil {
+		vlib.Infra("build probes: %v", pb.err)
+	}
+	var gs genStats
+	var gwg sync.WaitGroup
+	gwg.Add(1)
+	go func() {
+		defer gwg.Done()
+		gs = runGenerated(c, pb.bins, probeVs, scheds, rand.New(rand.NewSource(vlib.Seed()+707)), thorough)
+		fmt.Fprintf(os.Stderr, "generated-code phase done after %.1fs\n", time.Since(tStart).Seconds())
+	}()
 	concStats, raceOut := runConcurrent(c, concHist)
 	fmt.Fprintf(os.Stderr, "concurrent variant done after %.1fs\n", time.Since(tStart).Seconds())
+	gwg.Wait()
 
-	c.AddTraces(seqStats.Histories + concStats.Histories)
-	c.AddEvals(seqStats.Requests + concStats.Requests)
+	c.AddTraces(seqStats.Histories + concStats.Histories + gs.Runs)
+	c.AddEvals(seqStats.Requests + concStats.Requests + gs.Requests)
 	for _, tr := range sortedKeys(seqStats.PerTr) {
 		c.Class("transport=" + tr)
 	}
 	for k := range covered {
 		c.Class(k)
 	}
-	c.Set("rule", "TLC explores HttpState (pool x query cache x APQ cache, every request of the alphabet from every reachable state, fresh and pooled object) and prints the request-level labelled state graph; "+
-		"histories = paths from Init that together cover every edge (CoverPaths, length <= 4 beyond the shortest prefix) + seeded random walks; a distinct class = one (source state, request, pool choice) edge")
+	for k := range hdrCovered {
+		c.Class("hdr|" + k)
+	}
+	for _, k := range gs.Classes {
+		c.Class(k)
+	}
+	c.Set("rule", "TLC explores HttpState (pool x query cache x APQ cache x transport configuration, every request of the alphabet from every reachable state, fresh and pooled object) and prints the request-level labelled state graph; "+
+		"histories = paths from Init that together cover every edge (CoverPaths, length <= 4 beyond the shortest prefix) + seeded random walks; a distinct class = one (source state, request, pool choice) edge. "+
+		"Header instance: source state = server configuration x (transport, media type) negotiated last, requests with an Accept dimension; one family of covering paths per configuration. "+
+		"Generated code: TLC (three requests in flight, Respond split into Execute and Write) prints the schedule graph; every maximal path = one order of the Execute / Write steps, driven through gates on real concurrent requests; a class = one schedule x generator variant")
 	c.Set("exhaustive", true)
 	c.Set("edges", len(edges))
 	c.Set("edges_covered", len(covered))
+	c.Set("header_instance_edges", len(hdrEdges))
+	c.Set("header_instance_edges_covered", len(hdrCovered))
+	c.Set("header_instance_histories", nHdrHist)
 	c.Set("histories", len(histories))
 	c.Set("sequential", seqStats)
 	c.Set("sequential_wall_s", seqWall)
 	c.Set("concurrent", concStats)
 	c.Set("race_detector_output", raceOut)
+	c.Set("generated_code_concurrent", gs)
 	c.Set("model_mutants_violated_invariant", modelMutants)
 	c.Set("tlc_seq_states", seq.Distinct)
+	c.Set("tlc_header_instance_states", hdr.Distinct)
+	c.Set("tlc_three_in_flight_states", held.Distinct)
+	if len(hdrCovered) != len(hdrEdges) {
+		vlib.Infra("header instance: %d of %d edges covered", len(hdrCovered), len(hdrEdges))
+	}
 	if len(histories) > 0 {
-		h := histories[len(histories)/2]
+		h := histories[nSeqHist/2]
 		var rs []string
-		for _, s := range h {
+		for _, s := range h.Steps {
 			rs = append(rs, s.Act.R.label()+" -> "+s.Act.Out)
 		}
 		c.Sample(map[string]any{"history": rs})
 		c.Sample(map[string]any{"first_history": histories[0]})
+		hh := histories[nSeqHist+nHdrHist/2]
+		rs = nil
+		for _, s := range hh.Steps {
+			rs = append(rs, s.Act.R.label()+" -> "+s.Act.Out+" "+s.Act.St+" "+ctName(s.Act.Ct))
+		}
+		c.Sample(map[string]any{"header_instance_history": rs, "server_config": hh.Cfg, "response_headers_configured": cfgHeaders(hh.Cfg)})
+	}
+	if gs.Sample != nil {
+		c.Sample(gs.Sample)
 	}
 	c.Assume("resolvers are deterministic and echo operation name, coerced variables, extensions, the X-Req header and their arguments")
 	c.Assume("sync.Pool reuse is observed through the address of the *RawParams handed to the first OperationParameterMutator (no source hook)")
 	c.Assume("each history starts on a freshly constructed server (the model's Init); transport.pool is process-global and shared by all of them")
-	c.Assume("the fresh-server oracle is memoised per concrete request; transport.pool is emptied (two GC cycles) before a fresh server is asked; every fourth answer is confirmed by a second fresh server")
+	c.Assume("the fresh-server oracle is memoised per (server configuration, concrete request); transport.pool is emptied (two GC cycles) before a fresh server is asked; every fourth answer is confirmed by a second fresh server")
+	c.Assume("generated code: the universal resolver with a fixed plan per request is deterministic; the order of the errors list is not compared (fields of one object are resolved concurrently), its content is; the alone-oracle runs in the probe process before any concurrent request")
 	c.Finish()
 }
 
 // ------------------------------------------------------------------ concurrent variant
 
 type concInput struct {
-	Histories [][]step `json:"histories"`
-	Clients   int      `json:"clients"`
+	Histories []hist `json:"histories"`
+	Clients   int    `json:"clients"`
 }
 
 type concOutput struct {
@@ -496,7 +672,7 @@ type concOutput struct {
 
 // runConcurrent builds this driver with -race and lets it fire the histories
 // from 8 clients at one server.
-func runConcurrent(c *vlib.Check, hs [][]step) (stats, string) {
+func runConcurrent(c *vlib.Check, hs []hist) (stats, string) {
 	dir := vlib.Work("C07", "race")
 	_ = os.MkdirAll(dir, 0o755)
 	bin := filepath.Join(dir, "c07race")
@@ -521,7 +697,18 @@ func runConcurrent(c *vlib.Check, hs [][]step) (stats, string) {
 	select {
 	case err := <-done:
 		if err != nil {
-			vlib.Infra("concurrent child: %v\n%s", err, tail(stderr.String(), 3000))
+			se := stderr.String()
+			// a Go runtime abort on unsynchronised map access is behaviour of the code under test
+			if i := strings.Index(se, "fatal error: concurrent map"); i >= 0 {
+				c.Violate("concurrent:server-crash:concurrent-map-access",
+					"the server process died while 8 clients replayed the histories against one server:\n"+tail(se[i:], 1500), map[string]any{"stderr": tail(se[i:], 6000)})
+				return stats{PerTr: map[string]int64{}, PerOut: map[string]int64{}}, tail(se[i:], 3000)
+			}
+			if c.Violations() > 0 {
+				fmt.Fprintf(os.Stderr, "concurrent child stopped (%v) after violations were found sequentially:\n%s\n", err, tail(se, 1500))
+				return stats{PerTr: map[string]int64{}, PerOut: map[string]int64{}}, ""
+			}
+			vlib.Infra("concurrent child: %v\n%s", err, tail(se, 3000))
 		}
 	case <-time.After(15 * time.Minute):
 		_ = cmd.Process.Kill()
@@ -542,7 +729,7 @@ func runConcurrent(c *vlib.Check, hs [][]step) (stats, string) {
 	if i := strings.Index(stderr.String(), "WARNING: DATA RACE"); i >= 0 {
 		raceOut = tail(stderr.String()[i:], 6000)
 		key := "data-race"
-		for _, fn := range []string{"collectFields", "CollectFields", "transport.POST", "parseQuery", "lru", "extension.AutomaticPersistedQuery", "transport.(*wsConnection)"} {
+		for _, fn := range []string{"mergeHeaders", "determineResponseContentType", "writeHeaders", "collectFields", "CollectFields", "transport.POST", "parseQuery", "lru", "extension.AutomaticPersistedQuery", "transport.(*wsConnection)"} {
 			if strings.Contains(raceOut, fn) {
 				key = "data-race:" + fn
 				break
@@ -576,9 +763,9 @@ func concurrentChild() {
 	rn.conc = true
 	// fill the oracle sequentially first (fresh servers, no concurrency)
 	for _, h := range in.Histories {
-		for _, s := range h {
+		for _, s := range h.Steps {
 			r := s.Act.R
-			if _, err := rn.or.alone(concretise(r, xreqOf(r))); err != nil {
+			if _, err := rn.or.alone(concretiseOn(h.Cfg, r, xreqOf(r))); err != nil {
 				if d, ok := err.(*disagree); ok {
 					rn.report("fresh-servers-disagree{tr="+r.Tr+"}", d.Error(), map[string]any{"request": r})
 				} else {
@@ -589,7 +776,7 @@ func concurrentChild() {
 			if r.Q == "-" && strings.HasPrefix(r.Ext, "H:") {
 				q := r
 				q.Q = strings.TrimPrefix(r.Ext, "H:")
-				if _, err := rn.or.alone(concretise(q, xreqOf(r))); err != nil {
+				if _, err := rn.or.alone(concretiseOn(h.Cfg, q, xreqOf(r))); err != nil {
 					if _, ok := err.(*disagree); !ok {
 						fmt.Fprintln(os.Stderr, "oracle:", err)
 						os.Exit(3)
@@ -598,19 +785,36 @@ func concurrentChild() {
 			}
 		}
 	}
-	ls := startServer()
-	var wg sync.WaitGroup
-	for w := 0; w < in.Clients; w++ {
-		wg.Add(1)
-		go func(w int) {
-			defer wg.Done()
-			for i := w; i < len(in.Histories); i += in.Clients {
-				rn.replay(in.Histories[i], fmt.Sprintf("client %d history %d", w, i), ls)
-			}
-		}(w)
+	// one server per configuration; its histories are fired by the clients
+	byCfg := map[string][]int{}
+	var cfgs []string
+	for i, h := range in.Histories {
+		if _, ok := byCfg[h.Cfg]; !ok {
+			cfgs = append(cfgs, h.Cfg)
+		}
+		byCfg[h.Cfg] = append(byCfg[h.Cfg], i)
 	}
-	wg.Wait()
-	ls.close()
+	for _, cfg := range cfgs {
+		idx := byCfg[cfg]
+		ls := startServerCfg(cfg)
+		var wg sync.WaitGroup
+		for w := 0; w < in.Clients; w++ {
+			wg.Add(1)
+			go func(w int) {
+				defer wg.Done()
+				for k := w; k < len(idx); k += in.Clients {
+					rn.replay(in.Histories[idx[k]], fmt.Sprintf("client %d history %d", w, idx[k]), ls)
+				}
+			}(w)
+		}
+		wg.Wait()
+		if w := ls.configWritten(); len(w) > 0 {
+			rn.report(fmt.Sprintf("config-written{cfg=%s}", ls.cfg),
+				fmt.Sprintf("after %d concurrent histories the ResponseHeaders map the transport was constructed with holds %v", len(idx), w),
+				map[string]any{"server_config": ls.cfg, "written": w})
+		}
+		ls.close()
+	}
 	rn.st.OracleRuns = rn.or.n
 	ob, _ := json.Marshal(concOutput{Stats: rn.st, Findings: rn.findings})
 	if err := os.WriteFile(os.Getenv("C07_OUT"), ob, 0o644); err != nil {
@@ -625,8 +829,18 @@ func replayFile(c *vlib.Check, path string) {
 	if err != nil {
 		vlib.Infra("replay: %v", err)
 	}
+	var g struct {
+		Scenario struct {
+			Variant string `json:"variant"`
+		} `json:"scenario"`
+	}
+	if json.Unmarshal(b, &g) == nil && g.Scenario.Variant != "" {
+		replayGenerated(c, b)
+		return
+	}
 	var f struct {
 		Scenario struct {
+			Cfg    string `json:"server_config"`
 			Before []AReq `json:"history_before"`
 			Spec   Act    `json:"specification"`
 		} `json:"scenario"`
@@ -636,22 +850,23 @@ func replayFile(c *vlib.Check, path string) {
 	}
 	runtime.GOMAXPROCS(1)
 	rn := newRunner()
-	ls := startServer()
+	cfg := f.Scenario.Cfg
+	ls := startServerCfg(cfg)
 	defer ls.close()
 	cl := newClient(ls)
 	defer cl.close()
 	for i, r := range f.Scenario.Before {
-		if _, _, err := cl.do(concretise(r, xreqOf(r)), fmt.Sprintf("b%d", i)); err != nil {
+		if _, _, err := cl.do(concretiseOn(cfg, r, xreqOf(r)), fmt.Sprintf("b%d", i)); err != nil {
 			vlib.Infra("replay: %v", err)
 		}
 	}
 	a := f.Scenario.Spec
-	cr := concretise(a.R, xreqOf(a.R))
+	cr := concretiseOn(cfg, a.R, xreqOf(a.R))
 	resp, seen, err := cl.do(cr, "replayed")
 	if err != nil {
 		vlib.Infra("replay: %v", err)
 	}
-	rn.judge(a, cr, resp, seen, f.Scenario.Before, "replay")
+	rn.judge(ls.cfg, a, cr, resp, seen, f.Scenario.Before, "replay")
 	fmt.Printf("replayed %v then %s -> %s\n", labels(f.Scenario.Before), a.R.label(), resp.key())
 	for _, fd := range rn.findings {
 		c.Violate(fd.Key, fd.Detail, fd.Scen)
